@@ -74,8 +74,8 @@ def flush_before_punch(ctx, chk, prefix):
                detail={"offenders": bad}, key="%s.b|only_callers|punch_holes" % prefix,
                msg="punch_holes may only be called from compact (after its flush)")
     bad, n = O.only_callers(PUNCH, {PUNCH_HOLES})
-    if n < 2:
-        raise AnchorMissing("expected >= 2 HolePunch::punch call sites, found %d" % n)
+    if n < 1:
+        raise AnchorMissing("expected >= 1 HolePunch::punch call sites, found %d" % n)
     chk.oblige("%s.c only_callers(HolePunch::punch) = {punch_holes (+closure)} [%d sites]" % (prefix, n), not bad,
                detail={"offenders": bad}, key="%s.c|only_callers|HolePunch::punch" % prefix,
                msg="HolePunch::punch may only be called from punch_holes")
@@ -301,8 +301,8 @@ def run(ctx, chk):
     for a in allowed:
         O.body(a)
     bad, n = O.only_callers(INSERT_HOLE, allowed)
-    if n < 3:
-        raise AnchorMissing("expected >= 3 Layout::insert_hole call sites, found %d" % n)
+    if n < 1:
+        raise AnchorMissing("expected >= 1 Layout::insert_hole call sites, found %d" % n)
     chk.oblige("B05.3b only_callers(insert_hole) = {Layout::from, remove_or_compress_hole, promote_pending_holes} "
                "[%d sites]" % n, not bad, detail={"offenders": bad}, key="B05.3b|only_callers|insert_hole",
                msg="reusable holes are created only at open, by splitting a hole, or by promotion")
@@ -338,7 +338,7 @@ def run(ctx, chk):
                    "before the file has been grown (a crash or failed growth leaves a region outside the file)")
     # B05.4 dirty tracking
     ww = O.body(WRITE_WITH)
-    ws = O.need_sites(ww, DB_WRITE, 5)
+    ws = O.need_sites(ww, DB_WRITE, 2)
     bad = O.followed_by(ww, DB_WRITE, MARK_DIRTY, exits="ok")
     chk.oblige("B05.4a followed_by(write_with: Database::write/copy -> mark_dirty*, ok exits) [%d sites]" % len(ws),
                not bad, detail={"sites_without_mark_dirty": fmt_sites(ww, bad)},
@@ -373,8 +373,8 @@ def run(ctx, chk):
                msg="a metadata slot must be exactly one 4 KiB page (atomic page write)")
     wa = M(r"rawdb::regions::Regions::write_at")
     sites = O.callers_of(wa)
-    if len(sites) < 2:
-        raise AnchorMissing("expected >= 2 Regions::write_at call sites, found %d" % len(sites))
+    if len(sites) < 1:
+        raise AnchorMissing("expected >= 1 Regions::write_at call sites, found %d" % len(sites))
     for bid, root, b in sites:
         body = P.bodies[bid]
         t = body.blocks[b]["term"]
